@@ -749,6 +749,9 @@ class Evaluator:
             except AnalysisError:
                 continue
             akeys.append((obj, an.attr))
+            if (obj, an.attr) not in pre.heap and obj is self._cur()[3] and self._is_container_update(an, body):
+                # self.x[k] = v / self.x += v inside the loop without an earlier write: reads the old container
+                self._emit("read", s, pre, obj=obj, attr=an.attr)
             cur = pre.heap.get((obj, an.attr), mk("attr", obj, an.attr))
             body_st.heap[(obj, an.attr)] = mk("loopvar", an.attr, key_term, cur)
         if bind is not None:
@@ -780,6 +783,17 @@ class Evaluator:
         else:
             out.append(_Exit("fall", after))
         return out
+
+    @staticmethod
+    def _is_container_update(attr_node, body):
+        """Is the attribute only updated in place (subscript store / augmented assignment) in this loop body?"""
+        for st_ in body:
+            for n in ast.walk(st_):
+                if isinstance(n, ast.Assign):
+                    for t in n.targets:
+                        if isinstance(t, ast.Attribute) and ast.dump(t) == ast.dump(attr_node):
+                            return False
+        return True
 
     def _s_For(self, s, st):
         it = self._expr(s.iter, st)
